@@ -9,6 +9,7 @@ FAMILY = {
     "C06": "fam_buffer", "C07": "fam_buffer",
     "C08": "fam_bufsync",
     "C09": "fam_deadline",
+    "C10": "fam_rdl",
     "C20": "fam_xor",
     "C18": "fam_bridge",
     "C14": "fam_delay",
